@@ -10,7 +10,8 @@ from ..oracles import tm_exact, helmert_ref as H, geodesic_exact as G
 from .C03 import closed_form
 
 RULE = ("MGA coordinates: zone 46..59, easting 100 000..900 000 m, latitude -60..-5 deg (northing from the exact projection), "
-        "height absent / 0 / -100..3000 m, covariance absent / PSD 3x3 (all ranks); for the algebraic part the whole southern "
+        "points down to 1e-8 deg either side of a zone boundary, height absent / 0 / -100..3000 m, covariance absent / PSD 3x3 (all "
+        "ranks) / 3x1 variance column, floats, whole-metre ints, numpy float64; for the algebraic part the whole southern "
         "UTM domain; both directions; non-trivial = more than 0.5 deg from the central meridian")
 ASSUMPTIONS = ["a 3x1 variance column is outside the documented domain of transform_mga* ('3*3 numpy array'): it reaches "
                "conform7's vcv[i, j] and raises IndexError; the statement gives no expected value for it, so it is exercised under "
